@@ -13,7 +13,9 @@ correspondence stream of tools/props/c13.py.
 """
 import ast
 import glob
+import json
 import os
+import subprocess
 import sys
 
 import py2v
@@ -68,6 +70,34 @@ def const_str(node, what):
     if isinstance(node, ast.Constant) and isinstance(node.value, str):
         return node.value
     raise Unsupported('%s is not a string constant' % what)
+
+
+ORGANIC_ELEMENTS = ['B', 'C', 'N', 'O', 'P', 'S', 'F', 'Cl', 'Br', 'I']
+_PROBE = ("import json\nfrom pysmiles.smiles_helper import valence\n"
+          "print(json.dumps([[e, valence({'element': e, 'charge': 0})] for e in %r]))\n")
+
+
+def probe_valence():
+    """valence() of the installed pysmiles for the neutral organic-subset elements (the only atoms
+    read_smiles leaves without an explicit hcount), obtained by CALLING the library"""
+    try:
+        import pysmiles  # noqa: F401
+        exe = sys.executable
+    except ImportError:
+        exe = '/venv/bin/python'
+    try:
+        p = subprocess.run([exe, '-W', 'ignore', '-c', _PROBE % (ORGANIC_ELEMENTS,)], stdout=subprocess.PIPE,
+                           stderr=subprocess.PIPE, text=True, timeout=120)
+    except (OSError, subprocess.TimeoutExpired) as exc:
+        raise Unsupported('cannot run the installed pysmiles: %s' % exc)
+    line = [l for l in p.stdout.splitlines() if l.startswith('[')]
+    if p.returncode != 0 or not line:
+        raise Unsupported('probing pysmiles.valence failed: %s' % p.stderr[-300:])
+    rows = json.loads(line[-1])
+    for e, v in rows:
+        if not (isinstance(v, list) and v and all(isinstance(x, int) and not isinstance(x, bool) and x >= 0 for x in v)):
+            raise Unsupported('valence(%s) is not a non-empty list of naturals: %r' % (e, v))
+    return rows
 
 
 @_target('SmilesGen', [])
@@ -138,4 +168,19 @@ def gen_smiles(trees):
     out += ('Definition smiles_atom_defaults : attrs := [((S "charge"), (VInt (0)%Z)); ((S "hcount"), (VInt (0)%Z)); '
             '((S "aromatic"), (VBool false))].\n')
     out += 'Definition smiles_atom_pattern_checked : bool := true.\n'
+    # ------------------------------------------------------------------ valences (called, not parsed)
+    rows = probe_valence()
+    out += 'Definition smiles_valence : list (pystr * list Z) := [%s].\n' % '; '.join(
+        '(%s, [%s])' % (coq_str(e), '; '.join('(%d)%%Z' % x for x in v)) for e, v in rows)
+    # fill_valence / bonds_missing: the two expressions the model transcribes
+    fv = py2v.find_function(sh, 'fill_valence')
+    bm = py2v.find_function(sh, 'bonds_missing')
+    src_fv, src_bm = ast.unparse(fv), ast.unparse(bm)
+    for needle, where in (("if 'hcount' in node and respect_hcount or node.get('element') == 'H':", src_fv),
+                          ("missing = max(bonds_missing(mol, n_idx), 0)", src_fv),
+                          ("node['hcount'] = node.get('hcount', 0) + missing", src_fv),
+                          ("val = [v for v in val if v >= bonds] or val[-1:]", src_bm),
+                          ("return int(val[0] - bonds)", src_bm)):
+        if needle not in where:
+            raise Unsupported('fill_valence / bonds_missing changed: %r not found' % needle)
     return out
